@@ -545,11 +545,11 @@ EXPLANATION = (
     "R1: the six regexes.append sites of DigitalRFEventHandler use only the RE_* constants imported from list_drf. R2: for all 36 "
     "flag rows the union of registered path regexes (abstract execution of the if/elif chains) is compared as a regular language "
     "with the listing's composition <dir>/<SUBDIR>/<file regex chosen by _yield_matching_files> and <dir>/<properties regex chosen "
-    "by ilsdrf>, restricted to the property's domain (file at the format's depth / directly in a directory, no newline). R3: no "
+    "by ilsdrf>, restricted to the property's domain (last two components <sub-directory>/<file>, whatever the ancestors are called / directly in a directory, no newline). R3: no "
     "regex accepts a tmp. file name at format depth; directories are ignored. R4: move events are converted (tracked->other = "
     "deleted, other->tracked = created, neither = dropped). R5: the only drops after a match are strict comparisons with the "
     "window bounds on the name timestamp, and the window test is not evaluated for a match without a time group (properties "
-    "files; infeasibility over the CFG truth states with a ghost flag); every m.group(name) is defined in all regexes that reach it or guarded. Does NOT decide "
+    "files; infeasibility over the CFG truth states with a ghost flag); every m.group(name) is defined in all regexes that reach it or guarded. R6: the window verdict enters the per-path match flags of a move (source and destination separately), it is not applied once per event. Does NOT decide "
     "that the listing's window (C14) is the same inclusive window.")
 TECHNIQUE = ('Python ast; abstract execution of flag chains -> regular-language equality with the listing grammar for all flag rows; event conversion by flag states')
 ASSUMPTIONS = ["watchdog delivers events only for watched paths and matches with re.match on the decoded path",
